@@ -33,25 +33,47 @@ def replay_harness(ctx, casefile, toks):
 
 
 def parse(t):
-    """-> (cfg dict, [(opname, args, obs dict)])"""
-    if not t or t[0] != 0 or len(t) < 7:
+    """sequential (kind 0) or during-trim (kind 2) case -> (cfg dict, [(opname, args, obs dict)]);
+    the during-trim event appears as one step named 'TrimOpenConns<during: script>'"""
+    if not t or t[0] not in (0, 2) or len(t) < 7:
         return None
     np_, nd = t[1], t[6]
     cfg = {"peers": np_, "low": t[2], "high": t[3], "grace": t[4], "resolution": t[5],
            "decaying(interval,k,min,max)": [t[7 + 4 * i: 11 + 4 * i] for i in range(nd)]}
     i, steps = 7 + 4 * nd, []
+    npre = -1
+    if t[0] == 2:
+        npre = t[i]
+        i += 1
+        cfg["during_trim_event_at_step"] = npre
+
+    def obs(i):
+        cnt = t[i]
+        peers = [t[i + 1 + 3 * k: i + 4 + 3 * k] for k in range(np_)]
+        i += 1 + 3 * np_
+        k = t[i]
+        closed = [t[i + 1 + 2 * j: i + 3 + 2 * j] for j in range(k)]
+        i += 1 + 2 * k
+        return {"count": cnt, "peers(present,value,tagsum)": peers, "closed(p,c)": closed}, i
     try:
         while i < len(t):
+            if len(steps) == npre:
+                npre = -1
+                ns = t[i]
+                i += 1
+                script = []
+                for _ in range(ns):
+                    name, n = OPN[t[i]]
+                    script.append("%s%s" % (name, tuple(t[i + 1:i + 1 + n])))
+                    i += 1 + n
+                o, i = obs(i)
+                steps.append(("TrimOpenConns<during: %s>" % "; ".join(script), [], o))
+                continue
             name, n = OPN[t[i]]
             args = t[i + 1:i + 1 + n]
             i += 1 + n
-            cnt = t[i]
-            peers = [t[i + 1 + 3 * k: i + 4 + 3 * k] for k in range(np_)]
-            i += 1 + 3 * np_
-            k = t[i]
-            closed = [t[i + 1 + 2 * j: i + 3 + 2 * j] for j in range(k)]
-            i += 1 + 2 * k
-            steps.append((name, args, {"count": cnt, "peers(present,value,tagsum)": peers, "closed(p,c)": closed}))
+            o, i = obs(i)
+            steps.append((name, args, o))
     except (KeyError, IndexError):
         pass
     return cfg, steps
@@ -98,7 +120,8 @@ def describe(t):
     if not r:
         return {"raw": t[:120]}
     cfg, steps = r
-    return {"config": cfg, "ops": ["%s%s -> count=%d closed=%s" % (n, tuple(a), o["count"], o["closed(p,c)"]) for n, a, o in steps][:80]}
+    return {"config": cfg, "ops": ["%s%s -> count=%d present=%s closed=%s" % (
+        n, tuple(a), o["count"], "".join(str(x[0]) for x in o["peers(present,value,tagsum)"]), o["closed(p,c)"]) for n, a, o in steps][:80]}
 
 
 def nontrivial(line):
@@ -111,7 +134,7 @@ def nontrivial(line):
     r = parse(t)
     if not r:
         return False
-    return any(n in ("TrimOpenConns", "ForceTrim") and o["closed(p,c)"] for n, a, o in r[1])
+    return any(n.startswith(("TrimOpenConns", "ForceTrim")) and o["closed(p,c)"] for n, a, o in r[1])
 
 
 def key(tag, toks, d):
@@ -152,7 +175,8 @@ if __name__ == "__main__":
     ctx.assumptions = [
         "Go int / time modelled as unbounded Z (no overflow); time in whole virtual seconds",
         "each exported method and each decayer command is one atomic step (segment locks, plk, trimMutex not modelled); "
-        "trims concurrent with tag/connect operations are covered by the correspondence only (theorems named _partial say so)",
+        "trims concurrent with tag/connect operations are covered by the correspondence only (theorems named _partial say so): random goroutine races "
+        "judged at quiescence, plus the deterministic during-trim class (ops injected between a trim's candidate snapshot and its selection loop)",
         "sort.Slice enters as a Section variable with hypotheses 'permutation' and 'ordered by (temp, value)'; instantiated by insertion sort; "
         "the stream/direction tie-breakers are not modelled, every resolution of ties is admitted by trim_ok",
         "an absent tag and a tag of value 0 are identified (the property is about totals); decaying tags use DecayNone/DecayFixed(k>=0) and "
@@ -178,9 +202,14 @@ if __name__ == "__main__":
              "advances across the grace period and decay intervals, TrimOpenConns and ForceTrim, with Disconnected delivered (or not) for closed "
              "connections. After every op: GetInfo().ConnCount, GetTagInfo (presence, Value, sum of Tags) of all peers, and the set of connections "
              "CloseWithError was called on. conform_case replays the ops on the Coq model (state compared exactly, closed set judged by trim_ok); "
-             "monitor_case judges the observations by the property alone. CONCURRENT cases (300 quick / 10000 thorough): 6 goroutines doing "
+             "monitor_case judges the observations by the property alone. DURING-TRIM cases (900 quick / 40000 thorough, + 1 directed): a deterministic "
+             "interleaving class - a scripted list of Connected/Disconnected/tag ops (peer loses its last connection and reconnects, peer goes away, "
+             "new connection + tag change, new peer, random mixes) is executed synchronously from INSIDE TrimOpenConns, between its candidate snapshot and "
+             "its selection loop (hook in the fake conns' Stat(), which the sort's comparator calls; TryLock ensures the script's peers are not the two being "
+             "compared); judged at quiescence by the bookkeeping monitor (count, totals, closed conns only of peers eligible at the snapshot), then the case "
+             "continues sequentially so later Disconnected/trims for the touched peers are judged too. CONCURRENT cases (300 quick / 10000 thorough): 6 goroutines doing "
              "Connected/Disconnected/TagPeer/UntagPeer/UpsertTag on their own connection/tag ids of all peers while 2 goroutines call TrimOpenConns "
              "in a loop; at quiescence count and totals must equal what the op lists imply (interleaving-independent by construction) and no closed "
              "connection may belong to a peer that was protected or inside its grace period throughout. Non-trivial = a trim closed at least one connection; distinct = distinct lines.",
-        describe=describe, key=key, what=what, crosscheck=150,
+        describe=describe, key=key, what=what, crosscheck=80,
     ))
